@@ -1,1 +1,2 @@
 pub mod queue;
+pub mod uow;
